@@ -60,26 +60,17 @@ def render_tokens(toks, rng=None, canonical=True):
     before each token.  canonical: bare words where possible, single spaces."""
     out = []
     prev_line_comment = False
+    prev_block_comment = False
+    prev_bare = False           # the previous token was written as a bare word
     for i, t in enumerate(toks):
         k = t["k"]
         nl = int(t.get("nl", 0))
-        if prev_line_comment and nl == 0:
+        if prev_line_comment and nl == 0 and k != "eof":
             raise ValueError("line comment must be followed by a newline")
-        sep = "\n" * nl
-        if i > 0 and nl == 0:
-            sep = " " if (canonical or rng is None) else rng.choice([" ", "  ", "\t", " "])
-        elif nl > 0 and not canonical and rng is not None:
-            sep = sep + rng.choice(["", " ", "\t"])
-        out.append(sep)
-        prev_line_comment = False
-        if k == "str" and int(t.get("nlin", 0)) > 0:
-            # a value spanning lines: literal newlines inside double quotes
-            out.append('"' + t["v"].replace("\\", "\\\\").replace('"', '\\"') + '"')
-        elif k == "str":
-            out.append(render_str(t["v"], None if canonical else rng))
-        elif k == "cmt":
+        style = None
+        if k == "cmt":
             nxt = toks[i + 1] if i + 1 < len(toks) else None
-            can_line = nxt is None or int(nxt.get("nl", 0)) >= 1 or nxt["k"] == "eof" and False
+            can_line = nxt is None or int(nxt.get("nl", 0)) >= 1 or nxt["k"] == "eof"     # (the end of the text ends a line comment)
             style = t.get("style")
             if style is None:
                 if can_line and rng is not None and not canonical:
@@ -88,8 +79,31 @@ def render_tokens(toks, rng=None, canonical=True):
                     style = "/*"
             if style in ("#", "//") and (not can_line or "\n" in t["v"]):
                 style = "/*"
+        sep = "\n" * nl
+        if i > 0 and nl == 0:
+            sep = " " if (canonical or rng is None) else rng.choice([" ", "  ", "\t", " "])
+            # a comment needs no white space in front of it - except that a slash directly behind a bare word
+            # belongs to the word (lexer.l: unquoted strings may contain slashes) - and a block comment none after it
+            glue_ok = (k == "cmt" and (style == "#" or not prev_bare)) or (prev_block_comment and k != "cmt")
+            if not canonical and rng is not None and glue_ok and rng.random() < 0.5:
+                sep = ""
+        elif nl > 0 and not canonical and rng is not None:
+            sep = sep + rng.choice(["", " ", "\t"])
+        out.append(sep)
+        prev_line_comment = False
+        prev_block_comment = False
+        prev_bare = False
+        if k == "str" and int(t.get("nlin", 0)) > 0:
+            # a value spanning lines: literal newlines inside double quotes
+            out.append('"' + t["v"].replace("\\", "\\\\").replace('"', '\\"') + '"')
+        elif k == "str":
+            txt = render_str(t["v"], None if canonical else rng)
+            prev_bare = not txt.startswith(('"', "'"))
+            out.append(txt)
+        elif k == "cmt":
             if style == "/*":
                 out.append("/* %s */" % t["v"])
+                prev_block_comment = True
             else:
                 out.append("%s %s" % (style, t["v"]))
                 prev_line_comment = True
